@@ -59,7 +59,11 @@ MCPatternsOf(sd) ==
     [] sd.fam = "fixed" -> {[sd EXCEPT !.pats = <<LitCat(s)>>, !.fixed = TRUE] : s \in FixedStrs}
     [] sd.fam = "lf" -> {[sd EXCEPT !.pats = <<x>>] : x \in {ULit(SLF), UCat(ULit(SA), UCat(ULit(SLF), ULit(SB))), UAlt(ULit(SA), ULit(SLF)),
                                                               UCls({SA, SLF}, FALSE), UCat(ULit(SA), URep(ULit(SLF), 0, 1, TRUE)), UCls({SA}, TRUE),
-                                                              UCat(URep(UCls({SA}, TRUE), 1, Inf, TRUE), ULit(SB)), ULit(SCR), UCat(ULit(SA), ULit(SCR))}}
+                                                              UCat(URep(UCls({SA}, TRUE), 1, Inf, TRUE), ULit(SB)), ULit(SCR), UCat(ULit(SA), ULit(SCR)),
+                                                              \* behind a text anchor (such patterns have no terminator to report, but the promise stands)
+                                                              UCat(ULook("bot"), UCat(ULit(SA), UCat(ULit(SLF), ULit(SB)))),
+                                                              UCat(ULook("bot"), UCat(ULit(SA), UCat(UWCls(TRUE), ULit(SB)))),
+                                                              UCat(ULit(SA), UCat(UCls({SA}, TRUE), UCat(ULit(SB), ULook("eot"))))}}
                          \* the same as fixed strings (-F): a literal holding the terminator must be rejected, not searched for
                          \cup {[sd EXCEPT !.pats = <<LitCat(s)>>, !.fixed = TRUE] :
                                  s \in {<<SA, SLF, SB>>, <<SLF>>, <<SA, SLF>>, <<SA, SCR, SB>>, <<SA, SNUL, SB>>, <<SDOT, SLF>>}}
